@@ -3,6 +3,8 @@
 //                                      (script -1 when uscript_getScript fails or returns USCRIPT_INVALID_CODE)
 //   F <min_chars> <run> <sample> <mci> <minpunct> <hexfield>     SimpleCleaningFilter::operator() -> 0/1
 //   R <fieldspec>                      ParseFields + DefragmentFields -> b:e,b:inf
+//   SN <name,name>                     ScriptStringsToCodes -> codes
+//   FS <min_chars> <run> <sample> <mci> <minpunct> <minscripts> <codes|-> <hexfield>   the filter with --scripts
 #include "hx_common.hh"
 #include <boost/lexical_cast.hpp>
 #define main simple_cleaning_main_renamed
@@ -34,6 +36,30 @@ int main() {
         o.min_punct = boost::lexical_cast<float>(t[5]);
         o.min_scripts = 0.9f;
         std::string f = t[6] == "-" ? std::string() : hx::unhex(t[6]);
+        preprocess::SimpleCleaningFilter filter(o);
+        out = filter(util::StringPiece(f.data(), f.size())) ? "1" : "0";
+      } else if (t.size() == 2 && t[0] == "SN") {
+        // script names (comma separated) -> the codes ScriptStringsToCodes puts into Options::scripts
+        std::vector<std::string> names;
+        std::string cur;
+        for (char ch : t[1]) { if (ch == ',') { names.push_back(cur); cur.clear(); } else cur.push_back(ch); }
+        names.push_back(cur);
+        std::vector<UScriptCode> codes;
+        preprocess::ScriptStringsToCodes(names, codes);
+        for (size_t i = 0; i < codes.size(); ++i) { if (i) out += ","; out += std::to_string((int)codes[i]); }
+      } else if (t.size() == 9 && t[0] == "FS") {
+        preprocess::Options o;
+        o.delim = '\t';
+        o.min_chars = boost::lexical_cast<size_t>(t[1]);
+        o.character_run = boost::lexical_cast<size_t>(t[2]);
+        o.min_punct_sample_size = boost::lexical_cast<size_t>(t[3]);
+        o.max_common_inherited = boost::lexical_cast<float>(t[4]);
+        o.min_punct = boost::lexical_cast<float>(t[5]);
+        o.min_scripts = boost::lexical_cast<float>(t[6]);
+        std::string cur;
+        for (char ch : t[7]) { if (ch == ',') { o.scripts.push_back((UScriptCode)atoi(cur.c_str())); cur.clear(); } else cur.push_back(ch); }
+        if (t[7] != "-") o.scripts.push_back((UScriptCode)atoi(cur.c_str()));
+        std::string f = t[8] == "-" ? std::string() : hx::unhex(t[8]);
         preprocess::SimpleCleaningFilter filter(o);
         out = filter(util::StringPiece(f.data(), f.size())) ? "1" : "0";
       } else if (t.size() == 2 && t[0] == "R") {
